@@ -7,10 +7,17 @@ ATTRS = ['p', 'q', 'id']
 TEXTS = ['t', 'hello', ' ', 'x y', 'é', '\U0001F600', '1', '', 'a]b', '>']
 
 def gen_doc(rng, depth=0):
-    """(xml text) of a small well-formed document"""
+    """(xml text) of a small well-formed document; a quarter of them use the prefix p (bound to u on the root)"""
+    ns = rng.random() < 0.25
     def elem(d):
         name = rng.choice(NAMES)
-        attrs = ''
+        if ns and rng.random() < 0.6:
+            name = 'p:' + name
+        if d == 0 and ns:
+            return elem_named(name, d, ' xmlns:p="u"')
+        return elem_named(name, d, '')
+    def elem_named(name, d, extra):
+        attrs = extra
         for a in rng.sample(ATTRS, rng.choice([0, 0, 1, 2])):
             q = rng.choice('"\'')
             attrs += ' %s=%s%s%s' % (a, q, rng.choice(['1', 'v', 'x y', '&amp;', '']), q)
@@ -29,7 +36,7 @@ def gen_doc(rng, depth=0):
     epi = rng.choice(['', '', '<!--end-->', '\n'])
     return pro + elem(0) + epi
 
-XPATHS = ['/', '/*', '//a', '//b', '//a|//b', '//*', '//@p', '//@*', '/*/*[1]', '//*[@p]', '//a//b', '/*/a', '//c/..', '//item',
+XPATHS = ['//p:a', '//p:*', '//p:b|//p:c', '/', '/*', '//a', '//b', '//a|//b', '//*', '//@p', '//@*', '/*/*[1]', '//*[@p]', '//a//b', '/*/a', '//c/..', '//item',
           '//text()', '//comment()', 'count(//a)', 'string(/*)', '1+', '//a[', '//nosuch', '//*[last()]', '/*/*[position()=2]', '//a/@q']
 VALUES = ['', 'new', '<k/>', 'x<k a="1">y</k>z', '<!--c-->', '<![CDATA[<raw>]]>', 'a&amp;b', '<k><m/><m/>t</k>', 'two<k/><k/>',
           '<?pi d?>', '&#65;', '<p:g xmlns:p="u"/>', '<k p:a="1" xmlns:p="u"/>', '<k', 'a<b', '&undeclared;', '<k/><!--c-->', 'é\U0001F600', ' ', '<k>&lt;</k>']
@@ -81,7 +88,7 @@ def check(run):
         val = rng.choice(VALUES) if tool == 'xe' else '-'
         noindent = 1 if rng.random() < 0.85 else 0
         ns = ''
-        if rng.random() < 0.1:
+        if rng.random() < 0.1 or 'p:' in xp:
             ns = ' %s=%s' % (enc('p'), enc('u'))
         cases.append((tool, noindent, doc, xp, val, ns))
     lines = ['%s %d %s %s %s%s' % (t, ni, enc(d), enc(x), enc(v) if v != '-' else '-', ns) for t, ni, d, x, v, ns in cases]
@@ -122,13 +129,21 @@ def check(run):
                 fail(i, 'xq failed on a query the library evaluates', 'xq-exit'); continue
             if ni == 1 and f.get('out', '')[4:] != f.get('exp', ''):
                 fail(i, 'xq output differs from the serialisations of the selected nodes in order', 'xq-output')
+            kinds = f.get('sel', '').split(':')[2] if f.get('sel', '').count(':') >= 2 else ''
+            if kinds and set(kinds) <= {'e'} and f.get('outwf') == '0':
+                fail(i, 'xq printed selected elements as text that is not well-formed', 'xq-wellformed')
             continue
         # xe
         if f.get('sel') == 'scalar' or f.get('frag') == 'err':
             if rc_ok: fail(i, 'xe exited 0 although the path is scalar-valued or the value is not well-formed', 'exit-status')
             continue
         if ni == 0:
-            continue        # indented output: only totality is claimed
+            # indented output: content is not claimed, but it must be a well-formed document whenever
+            # the compact run of the same edit is
+            so_i = so.get(i)
+            if rc_ok and so_i is not None and so_i.startswith('done:') and not f.get('out', '').startswith('(doc') and not frag_features(f.get('frag', '')):
+                fail(i, 'xe indented output is not a well-formed document', 'xe-indent-wellformed')
+            continue
         feats = frag_features(f.get('frag', ''))
         # correspondence: model vs tool
         m = mo.get(i)
